@@ -67,6 +67,10 @@ func r2script(c *core.Ctx, models map[string]*drvModel) {
 	const R = "R2.script"
 	c.Rule(R, "lifecycle drivers send exactly the scripted messages in order on every path; protected with header type 1|2, context available, never a new context; outcomes after a receive")
 	for _, n := range []string{"EstablishPDU", "ServiceRequest", "ReleasePDU", "DeregisterUE", "ModifyPDU"} {
+		if x := driverModelX(c, models[n].fn); xUsable(c, x) {
+			checkScriptX(c, R, x, lifecycleScripts[n])
+			continue
+		}
 		checkScript(c, R, models[n], lifecycleScripts[n])
 	}
 }
@@ -77,8 +81,13 @@ func r2ids(c *core.Ctx, models map[string]*drvModel) {
 	nPos := 0
 	for _, n := range []string{"EstablishPDU", "ServiceRequest", "ReleasePDU", "DeregisterUE", "ModifyPDU"} {
 		m := models[n]
-		checkIDs(c, R, m)
 		nPos += checkPositional(c, "R2.pos", m)
+		if x := driverModelX(c, m.fn); xUsable(c, x) {
+			checkIDsX(c, R, x)
+			r2relearnX(c, R, x, n)
+			continue
+		}
+		checkIDs(c, R, m)
 		// a new InitialUEMessage opens a new UE-associated logical NG-connection: the AMF
 		// assigns the AMF-UE-NGAP-ID of that connection in its first answer
 		for _, s := range m.sends {
@@ -245,6 +254,11 @@ func r2report(c *core.Ctx, m *drvModel) {
 	c.Rule(R, "EstablishPDU returns the UE IP / TEID / UPF IP decoded from the setup item it received; main registers exactly these with the data plane")
 	fn := m.fn
 	p := m.p
+	if x := driverModelX(c, fn); xUsable(c, x) {
+		r2reportEstablishX(c, R, x)
+		r2reportMain(c, R)
+		return
+	}
 	var rets []*ssa.Return
 	for _, b := range fn.Blocks {
 		if r, ok := b.Instrs[len(b.Instrs)-1].(*ssa.Return); ok {
@@ -278,7 +292,11 @@ func r2report(c *core.Ctx, m *drvModel) {
 		}
 	}
 	c.Check(okRet, R, "EstablishPDU:returns-decoded-values", fn.Pos(), "(DecodePDUSessionNASPDU(item.PDUSessionNASPDU), DecodePDUSessionResourceSetupRequestTransfer(item.Transfer)#0, #1)", "EstablishPDU must report the UE IP of the item's NAS PDU and the TEID and UPF address of the same item's transfer: %s", why)
-	// main: AddClient(clientip, teid, upfip) with the three results of one EstablishPDU call
+	r2reportMain(c, R)
+}
+
+// r2reportMain: AddClient(clientip, teid, upfip) with the three results of one EstablishPDU call.
+func r2reportMain(c *core.Ctx, R string) {
 	mainFn := mustFunc(c, pMain, "main")
 	mp := core.NewPather(mainFn)
 	n := 0
